@@ -71,6 +71,26 @@ func (t *ktracer) list(specs []*mwSpec) []frugal.ServiceMiddleware {
 	return out
 }
 
+// releaseTogether is a spinning barrier: the caller has prepared everything
+// and makes its call right after; the last arrival releases all n.
+func releaseTogether(ready *int32, n int, start chan struct{}) {
+	if int(atomic.AddInt32(ready, 1)) == n {
+		close(start)
+		return
+	}
+	for spins := 0; ; spins++ {
+		select {
+		case <-start:
+			return
+		default:
+		}
+		if spins > 2000 {
+			<-start // the others are slow to arrive: stop burning a core
+			return
+		}
+	}
+}
+
 func tokPrefix(s string) string {
 	if i := strings.IndexAny(s, "<>|!"); i >= 0 {
 		return s[:i]
@@ -140,8 +160,12 @@ func (mon *monitor) crossed(cc *concConfig, class, what string, w map[string]int
 // shared by all goroutines.  legKind http gives overlapping invocations on the
 // processor too (one handler goroutine per request); pipe overlaps on the
 // client only (the simple server handles a connection's requests in turn).
-func (mon *monitor) runConcurrentRPC(idx int, legKind string, goroutines, calls int) {
-	rng := mon.run.Rand(fmt.Sprintf("c16-concurrent-rpc-%d", idx))
+//
+// cold: the objects are brand new and the goroutines are released together, so
+// that the very FIRST invocations of one method overlap (all goroutines start
+// with the same method); one more caller makes sequential calls afterwards.
+func (mon *monitor) runConcurrentRPC(idx int, legKind string, goroutines, calls int, cold bool) {
+	rng := mon.run.Rand(fmt.Sprintf("c16-concurrent-rpc-%d-%v", idx, cold))
 	cfg := genConfig(rng, idx*4) // rpc kind
 	cfg.Mode = "rewriting"
 	for _, sp := range cfg.all() {
@@ -149,8 +173,28 @@ func (mon *monitor) runConcurrentRPC(idx int, legKind string, goroutines, calls 
 			sp.Pad = 2000 // thousands of calls: keep the traces light
 		}
 	}
+	if cold {
+		// full-length lists: the window in which first invocations can interleave grows with them
+		var k int64 = 100
+		for len(cfg.Provider) < 4 {
+			cfg.Provider = append(cfg.Provider, genList(rng, 1, fmt.Sprintf("p%dx", len(cfg.Provider)), attProvider, "client", "rewriting", &k)...)
+		}
+		for len(cfg.Ctor) < 4 {
+			cfg.Ctor = append(cfg.Ctor, genList(rng, 1, fmt.Sprintf("c%dx", len(cfg.Ctor)), attClientCtor, "client", "rewriting", &k)...)
+		}
+		for len(cfg.Proc) < 4 {
+			cfg.Proc = append(cfg.Proc, genList(rng, 1, fmt.Sprintf("s%dx", len(cfg.Proc)), attProcessorCtor, "server", "rewriting", &k)...)
+		}
+		for len(cfg.Added) < 2 {
+			cfg.Added = append(cfg.Added, genList(rng, 1, fmt.Sprintf("a%dx", len(cfg.Added)), attAddMiddleware, "server", "rewriting", &k)...)
+		}
+	}
 	cc := &concConfig{Index: idx, Kind: "rpc/" + legKind, Goroutines: goroutines, Calls: calls, Lists: cfg, Note: "one client object and one processor object shared by all goroutines"}
 	class := "rpc-" + legKind
+	if cold {
+		class = "first-calls-rpc-" + legKind
+		cc.Note = "brand-new client and processor objects; all goroutines released together, first calls on the same method"
+	}
 	kt := &ktracer{by: map[string][]event{}}
 	h := &e2e.Handler{}
 	h.Behave = func(c *e2e.Call) *e2e.Outcome {
@@ -190,58 +234,72 @@ func (mon *monitor) runConcurrentRPC(idx int, legKind string, goroutines, calls 
 	mon.run.Eval(1)
 	var wg sync.WaitGroup
 	var stop int32
-	for g := 0; g < goroutines; g++ {
-		wg.Add(1)
-		go func(g int) {
-			defer wg.Done()
-			for i := 0; i < calls && atomic.LoadInt32(&stop) == 0; i++ {
-				n := 1 + g*calls + i
-				tok := fmt.Sprintf("T%d", n)
-				call := tokenCall(concurrentMethods[(g+i)%len(concurrentMethods)], n)
-				args := call.Args()
-				var exp []event
-				cm := &ctxModel{TO: 8 * time.Second}
-				a := foldIn(&exp, clientChain, call.Method, cm, args)
-				a = foldIn(&exp, serverChain, call.Method, cm, a)
-				exp = append(exp, event{"handler", "call", call.Method, withCtx(renderList(a), cm.String()) + " cid=" + tok})
-				res := handlerFn(call.Method, "", a)
-				res = foldOut(&exp, serverChain, call.Method, res)
-				res = cross(call.Method, res)
-				res = foldOut(&exp, clientChain, call.Method, res)
-				want := renderList(res)
-				ctx := frugal.NewFContext(tok)
-				ctx.SetTimeout(8 * time.Second)
-				got := renderList(call.Invoke(client, ctx, args))
-				act := kt.take(tok)
-				mon.run.Add("concurrent_rpc_calls", 1)
-				handlerEvents := 0
-				for _, e := range act {
-					if e.MW == "handler" {
-						handlerEvents++
-					}
-				}
-				ok := true
-				if handlerEvents != 1 && len(ids(act, "enter")) == len(ids(exp, "enter")) {
-					mon.crossed(cc, class, fmt.Sprintf("with overlapping invocations on one object the handler ran %d time(s) with this call's token (another call's arguments reached it, or this call's arguments reached another invocation)", handlerEvents),
-						map[string]interface{}{"call": call.Name, "token": tok, "expected_trace": evStrings(exp), "observed_trace": evStrings(act), "caller_results": got})
-					ok = false
-				} else {
-					ok = mon.j.compare(cc, call.Name+" "+tok, "concurrent-"+class, specs, exp, act)
-				}
-				if ok && got != want {
-					mon.run.Violation("C16:caller-results:concurrent-"+class, "with overlapping invocations on one object the caller got results that are not those of its own call",
-						map[string]interface{}{"configuration": cc, "call": call.Name, "token": tok, "expected": want, "observed": got, "observed_trace": evStrings(act)})
-					ok = false
-				}
-				if ok {
-					mon.run.Add("calls_conforming", 1)
-				} else {
-					atomic.StoreInt32(&stop, 1)
+	start := make(chan struct{})
+	var ready int32
+	body := func(g int) {
+		defer wg.Done()
+		for i := 0; i < calls && atomic.LoadInt32(&stop) == 0; i++ {
+			n := 1 + g*calls + i
+			tok := fmt.Sprintf("T%d", n)
+			mi := (g + i) % len(concurrentMethods)
+			if cold && i == 0 {
+				mi = idx % len(concurrentMethods)
+			}
+			call := tokenCall(concurrentMethods[mi], n)
+			args := call.Args()
+			var exp []event
+			cm := &ctxModel{TO: 8 * time.Second}
+			a := foldIn(&exp, clientChain, call.Method, cm, args)
+			a = foldIn(&exp, serverChain, call.Method, cm, a)
+			exp = append(exp, event{"handler", "call", call.Method, withCtx(renderList(a), cm.String()) + " cid=" + tok})
+			res := handlerFn(call.Method, "", a)
+			res = foldOut(&exp, serverChain, call.Method, res)
+			res = cross(call.Method, res)
+			res = foldOut(&exp, clientChain, call.Method, res)
+			want := renderList(res)
+			ctx := frugal.NewFContext(tok)
+			ctx.SetTimeout(8 * time.Second)
+			if cold && g < goroutines && i == 0 {
+				releaseTogether(&ready, goroutines, start)
+			}
+			got := renderList(call.Invoke(client, ctx, args))
+			act := kt.take(tok)
+			mon.run.Add("concurrent_rpc_calls", 1)
+			handlerEvents := 0
+			for _, e := range act {
+				if e.MW == "handler" {
+					handlerEvents++
 				}
 			}
-		}(g)
+			ok := true
+			if handlerEvents != 1 && len(ids(act, "enter")) == len(ids(exp, "enter")) {
+				mon.crossed(cc, class, fmt.Sprintf("with overlapping invocations on one object the handler ran %d time(s) with this call's token (another call's arguments reached it, or this call's arguments reached another invocation)", handlerEvents),
+					map[string]interface{}{"call": call.Name, "token": tok, "expected_trace": evStrings(exp), "observed_trace": evStrings(act), "caller_results": got})
+				ok = false
+			} else {
+				ok = mon.j.compare(cc, call.Name+" "+tok, "concurrent-"+class, specs, exp, act)
+			}
+			if ok && got != want {
+				mon.run.Violation("C16:caller-results:concurrent-"+class, "with overlapping invocations on one object the caller got results that are not those of its own call",
+					map[string]interface{}{"configuration": cc, "call": call.Name, "token": tok, "expected": want, "observed": got, "observed_trace": evStrings(act)})
+				ok = false
+			}
+			if ok {
+				mon.run.Add("calls_conforming", 1)
+			} else {
+				atomic.StoreInt32(&stop, 1)
+			}
+		}
+	}
+	for g := 0; g < goroutines; g++ {
+		wg.Add(1)
+		go body(g)
 	}
 	wg.Wait()
+	if cold && atomic.LoadInt32(&stop) == 0 {
+		wg.Add(1)
+		body(goroutines) // sequential calls on the now warmed-up objects
+	}
 	mon.strays(cc, class, kt)
 	mon.run.Distinct(fmt.Sprintf("concurrent|%s|p%dc%ds%da%d|g%d", class, len(cfg.Provider), len(cfg.Ctor), len(cfg.Proc), len(cfg.Added), goroutines))
 }
@@ -259,8 +317,8 @@ func (mon *monitor) strays(cc *concConfig, class string, kt *ktracer) {
 
 // runConcurrentScope: one generated publisher and one generated subscriber on
 // the in-process loopback, shared by all goroutines.
-func (mon *monitor) runConcurrentScope(idx, goroutines, calls int) {
-	rng := mon.run.Rand(fmt.Sprintf("c16-concurrent-scope-%d", idx))
+func (mon *monitor) runConcurrentScope(idx, goroutines, calls int, cold bool) {
+	rng := mon.run.Rand(fmt.Sprintf("c16-concurrent-scope-%d-%v", idx, cold))
 	cfg := genConfig(rng, idx*4+3) // scope kind
 	cfg.Mode = "rewriting"
 	for _, sp := range cfg.all() {
@@ -268,8 +326,28 @@ func (mon *monitor) runConcurrentScope(idx, goroutines, calls int) {
 			sp.Pad = 2000 // thousands of calls: keep the traces light
 		}
 	}
+	if cold {
+		// full-length lists: the window in which first invocations can interleave grows with them
+		var k int64 = 100
+		for len(cfg.PubProv) < 4 {
+			cfg.PubProv = append(cfg.PubProv, genList(rng, 1, fmt.Sprintf("pp%dx", len(cfg.PubProv)), attPubProvider, "publisher", "rewriting", &k)...)
+		}
+		for len(cfg.PubCtor) < 4 {
+			cfg.PubCtor = append(cfg.PubCtor, genList(rng, 1, fmt.Sprintf("pc%dx", len(cfg.PubCtor)), attPubCtor, "publisher", "rewriting", &k)...)
+		}
+		for len(cfg.SubProv) < 4 {
+			cfg.SubProv = append(cfg.SubProv, genList(rng, 1, fmt.Sprintf("sp%dx", len(cfg.SubProv)), attSubProvider, "subscriber", "rewriting", &k)...)
+		}
+		for len(cfg.SubCtor) < 4 {
+			cfg.SubCtor = append(cfg.SubCtor, genList(rng, 1, fmt.Sprintf("sc%dx", len(cfg.SubCtor)), attSubCtor, "subscriber", "rewriting", &k)...)
+		}
+	}
 	cc := &concConfig{Index: idx, Kind: "scope", Goroutines: goroutines, Calls: calls, Lists: cfg, Note: "one publisher object and one subscriber object per scope shared by all goroutines"}
 	class := "scope"
+	if cold {
+		class = "first-calls-scope"
+		cc.Note = "brand-new publisher and subscriber objects; all goroutines released together, first publishes on the same operation"
+	}
 	kt := &ktracer{by: map[string][]event{}}
 	b := newBus()
 	b.discard = true
@@ -302,74 +380,87 @@ func (mon *monitor) runConcurrentScope(idx, goroutines, calls int) {
 	mon.run.Eval(1)
 	var wg sync.WaitGroup
 	var stop int32
-	for g := 0; g < goroutines; g++ {
-		wg.Add(1)
-		go func(g int) {
-			defer wg.Done()
-			for i := 0; i < calls && atomic.LoadInt32(&stop) == 0; i++ {
-				n := 1 + g*calls + i
-				tok := fmt.Sprintf("T%d", n)
-				op := []string{"Sent", "Num", "Ping"}[(g+i)%3]
-				pm, sm := "publish"+op, "subscribe"+op
-				var req interface{}
-				if op == "Sent" {
-					req = payload(tok)
-				} else {
-					req = &base.Thing{AnID: 8, AString: tok, At: 5}
-				}
-				pargs := []interface{}{req}
-				if op != "Ping" {
-					pargs = []interface{}{user, req}
-				}
-				var exp []event
-				cm := &ctxModel{TO: 5 * time.Second}
-				a := foldIn(&exp, pubChain, pm, cm, pargs)
-				sa := foldIn(&exp, subChain, sm, cm, []interface{}{a[len(a)-1]})
-				exp = append(exp, event{"callback", "call", sm, withCtx(renderList(sa), cm.String()) + " cid=" + tok})
-				sres := foldOut(&exp, subChain, sm, subscriberFn(op, true, sa))
-				_ = sres
-				want := renderList(foldOut(&exp, pubChain, pm, []interface{}{nil}))
-				ctx := frugal.NewFContext(tok)
-				var perr error
-				switch op {
-				case "Sent":
-					perr = epub.PublishSent(ctx, user, req.(*mainsvc.Payload))
-				case "Num":
-					perr = epub.PublishNum(ctx, user, req.(*base.Thing))
-				default:
-					perr = ppub.PublishPing(ctx, req.(*base.Thing))
-				}
-				got := renderList([]interface{}{errI(perr)})
-				act := kt.take(tok)
-				mon.run.Add("concurrent_publishes", 1)
-				cbs := 0
-				for _, e := range act {
-					if e.MW == "callback" {
-						cbs++
-					}
-				}
-				ok := true
-				if cbs != 1 && len(ids(act, "enter")) == len(ids(exp, "enter")) {
-					mon.crossed(cc, class, fmt.Sprintf("with overlapping publishes on one publisher / deliveries on one subscriber the callback ran %d time(s) with this message's token", cbs),
-						map[string]interface{}{"call": pm, "token": tok, "expected_trace": evStrings(exp), "observed_trace": evStrings(act)})
-					ok = false
-				} else {
-					ok = mon.j.compare(cc, pm+" "+tok, "concurrent-"+class, specs, exp, act)
-				}
-				if ok && got != want {
-					mon.run.Violation("C16:caller-results:concurrent-"+class, "with overlapping publishes the publishing caller got a result that is not that of its own publish",
-						map[string]interface{}{"configuration": cc, "call": pm, "token": tok, "expected": want, "observed": got})
-					ok = false
-				}
-				if ok {
-					mon.run.Add("calls_conforming", 1)
-				} else {
-					atomic.StoreInt32(&stop, 1)
+	start := make(chan struct{})
+	var ready int32
+	body := func(g int) {
+		defer wg.Done()
+		for i := 0; i < calls && atomic.LoadInt32(&stop) == 0; i++ {
+			n := 1 + g*calls + i
+			tok := fmt.Sprintf("T%d", n)
+			op := []string{"Sent", "Num", "Ping"}[(g+i)%3]
+			if cold && i == 0 {
+				op = []string{"Sent", "Num", "Ping"}[idx%3]
+			}
+			pm, sm := "publish"+op, "subscribe"+op
+			var req interface{}
+			if op == "Sent" {
+				req = payload(tok)
+			} else {
+				req = &base.Thing{AnID: 8, AString: tok, At: 5}
+			}
+			pargs := []interface{}{req}
+			if op != "Ping" {
+				pargs = []interface{}{user, req}
+			}
+			var exp []event
+			cm := &ctxModel{TO: 5 * time.Second}
+			a := foldIn(&exp, pubChain, pm, cm, pargs)
+			sa := foldIn(&exp, subChain, sm, cm, []interface{}{a[len(a)-1]})
+			exp = append(exp, event{"callback", "call", sm, withCtx(renderList(sa), cm.String()) + " cid=" + tok})
+			sres := foldOut(&exp, subChain, sm, subscriberFn(op, true, sa))
+			_ = sres
+			want := renderList(foldOut(&exp, pubChain, pm, []interface{}{nil}))
+			ctx := frugal.NewFContext(tok)
+			if cold && g < goroutines && i == 0 {
+				releaseTogether(&ready, goroutines, start)
+			}
+			var perr error
+			switch op {
+			case "Sent":
+				perr = epub.PublishSent(ctx, user, req.(*mainsvc.Payload))
+			case "Num":
+				perr = epub.PublishNum(ctx, user, req.(*base.Thing))
+			default:
+				perr = ppub.PublishPing(ctx, req.(*base.Thing))
+			}
+			got := renderList([]interface{}{errI(perr)})
+			act := kt.take(tok)
+			mon.run.Add("concurrent_publishes", 1)
+			cbs := 0
+			for _, e := range act {
+				if e.MW == "callback" {
+					cbs++
 				}
 			}
-		}(g)
+			ok := true
+			if cbs != 1 && len(ids(act, "enter")) == len(ids(exp, "enter")) {
+				mon.crossed(cc, class, fmt.Sprintf("with overlapping publishes on one publisher / deliveries on one subscriber the callback ran %d time(s) with this message's token", cbs),
+					map[string]interface{}{"call": pm, "token": tok, "expected_trace": evStrings(exp), "observed_trace": evStrings(act)})
+				ok = false
+			} else {
+				ok = mon.j.compare(cc, pm+" "+tok, "concurrent-"+class, specs, exp, act)
+			}
+			if ok && got != want {
+				mon.run.Violation("C16:caller-results:concurrent-"+class, "with overlapping publishes the publishing caller got a result that is not that of its own publish",
+					map[string]interface{}{"configuration": cc, "call": pm, "token": tok, "expected": want, "observed": got})
+				ok = false
+			}
+			if ok {
+				mon.run.Add("calls_conforming", 1)
+			} else {
+				atomic.StoreInt32(&stop, 1)
+			}
+		}
+	}
+	for g := 0; g < goroutines; g++ {
+		wg.Add(1)
+		go body(g)
 	}
 	wg.Wait()
+	if cold && atomic.LoadInt32(&stop) == 0 {
+		wg.Add(1)
+		body(goroutines) // sequential calls on the now warmed-up objects
+	}
 	mon.strays(cc, class, kt)
 	mon.run.Distinct(fmt.Sprintf("concurrent|scope|pp%dpc%dsp%dsc%d|g%d", len(cfg.PubProv), len(cfg.PubCtor), len(cfg.SubProv), len(cfg.SubCtor), goroutines))
 }
